@@ -64,24 +64,24 @@ type tb struct {
 	lastErr  string
 }
 
-func (t *tb) Helper()                          {}
-func (t *tb) Name() string                     { return "witness-harness" }
-func (t *tb) Logf(string, ...any)              {}
-func (t *tb) Log(...any)                       {}
-func (t *tb) Errorf(f string, a ...any)        { t.lastErr = fmt.Sprintf(f, a...) }
-func (t *tb) Error(a ...any)                   { t.lastErr = fmt.Sprint(a...) }
-func (t *tb) Fatalf(f string, a ...any)        { panic(tbFail{fmt.Sprintf(f, a...)}) }
-func (t *tb) Fatal(a ...any)                   { panic(tbFail{fmt.Sprint(a...)}) }
-func (t *tb) FailNow()                         { panic(tbFail{t.lastErr}) }
-func (t *tb) Fail()                            {}
-func (t *tb) Failed() bool                     { return t.lastErr != "" }
-func (t *tb) Cleanup(f func())                 { t.cleanups = append(t.cleanups, f) }
-func (t *tb) Setenv(string, string)            {}
-func (t *tb) Skip(...any)                      {}
-func (t *tb) Skipf(string, ...any)             {}
-func (t *tb) SkipNow()                         {}
-func (t *tb) Skipped() bool                    { return false }
-func (t *tb) TempDir() string                  { return "/tmp/witness-harness" }
+func (t *tb) Helper()                   {}
+func (t *tb) Name() string              { return "witness-harness" }
+func (t *tb) Logf(string, ...any)       {}
+func (t *tb) Log(...any)                {}
+func (t *tb) Errorf(f string, a ...any) { t.lastErr = fmt.Sprintf(f, a...) }
+func (t *tb) Error(a ...any)            { t.lastErr = fmt.Sprint(a...) }
+func (t *tb) Fatalf(f string, a ...any) { panic(tbFail{fmt.Sprintf(f, a...)}) }
+func (t *tb) Fatal(a ...any)            { panic(tbFail{fmt.Sprint(a...)}) }
+func (t *tb) FailNow()                  { panic(tbFail{t.lastErr}) }
+func (t *tb) Fail()                     {}
+func (t *tb) Failed() bool              { return t.lastErr != "" }
+func (t *tb) Cleanup(f func())          { t.cleanups = append(t.cleanups, f) }
+func (t *tb) Setenv(string, string)     {}
+func (t *tb) Skip(...any)               {}
+func (t *tb) Skipf(string, ...any)      {}
+func (t *tb) SkipNow()                  {}
+func (t *tb) Skipped() bool             { return false }
+func (t *tb) TempDir() string           { return "/tmp/witness-harness" }
 
 // ---- chain state -----------------------------------------------------------------
 
@@ -228,7 +228,7 @@ type chainCell struct {
 	signers []signer
 	h       util.Uint160
 	realTx  bool
-	nAccs   int // realTx: number of funded accounts that sign after the validator
+	nAccs   int    // realTx: number of funded accounts that sign after the validator
 	byKey   []byte // when set: CheckWitness is given this public key (whose account is h) instead of h
 }
 
